@@ -473,6 +473,8 @@ pub fn record(args: &Args) {
             "Mo 10:00-12:00", "Mo-Fr 09:00-17:00", "Sa 22:00-26:00", "Mo,Th 08:00-12:00,14:00-18:00", "Jan", "Nov-Feb", "week 10", "week 1-53/2",
             "2030", "Mo[1] 10:00-12:00", "Fr[-1]", "Dec 25-Jan 5", "easter", "Jan 1", "Feb 29", "PH", "Mo-Fr 10:00-18:00 || unknown",
             "24/7 ; Su 10:00-16:00", "Jun 10:00-12:00 ; Jul off", "Mo 00:00-24:00", "2025 Feb 21-easter", "sunrise-sunset",
+            // expressions that never change inside the supported range: their only change is the start of 1900 (asked from before it)
+            "24/7", "24/7 unknown", "Mo-Su", "00:00-24:00 open \"always\"", "1900-9999", "Dec-Feb", "24/7 ; PH off",
         ];
         let every = args.get_u64("every", 1) as usize;
         let (part, parts) = (args.get_u64("part", 0) as usize, args.get_u64("parts", 1) as usize);
@@ -489,10 +491,17 @@ pub fn record(args: &Args) {
             let expr_json = astjson::expr(&parsed);
             let crit: Vec<i64> = critical(&parsed, &ctx).into_iter().filter(|d| (17_000..24_000).contains(d)).collect();
 
-            for day in crit {
+            // standing points before 1900-01-01 (always asked): everything is closed there, the first change is at or after the
+            // start of the supported range
+            let before: Vec<(i64, bool)> = [DAY_MIN - 1, DAY_MIN - 7, DAY_MIN - 40].into_iter().map(|d| (d, true)).collect();
+
+            for (day, always) in crit.into_iter().map(|d| (d, false)).chain(before) {
                 for sec in [0u32, 35_940, 46_800, 72_000, 86_370] {
                     k += 1;
-                    if k % every != 0 {
+                    if !always && k % every != 0 {
+                        continue;
+                    }
+                    if always && sec != 35_940 && sec != 86_370 {
                         continue;
                     }
                     let t = datetime(day, sec);
